@@ -91,7 +91,7 @@ func Run(r *fw.Run) {
 		"every stack of 3 ANPs is presented in all 3! document orders; each order is compared with the order-free reference, hence with each other",
 	}
 	if r.Quick() {
-		r.SetBudget(150 * time.Second)
+		r.SetBudget(300 * time.Second)
 	} else {
 		r.SetBudget(25 * time.Minute)
 	}
